@@ -3,12 +3,8 @@
 # Assumed about SQLite (listed in the evidence): commit is atomic and durable in a journalled mode; a statement that raised has
 # no effect; an uncommitted statement of a connection that is dropped is rolled back.
 _UPSERT = "INSERT INTO individuals (id, individual) VALUES(?,?) ON CONFLICT(id) DO UPDATE SET individual=excluded.individual;"
-_SQL_MOD = ["SqlConn.ghost_pending", "SqlConn.ghost_commits", "SqlConn.ghost_stmts", "SqlConn.ghost_last_sql", "SqlConn.ghost_last_id",
+_SQL_MOD = ["self._conn", "SqlConn.ghost_journal_off", "SqlConn.ghost_pending", "SqlConn.ghost_commits", "SqlConn.ghost_stmts", "SqlConn.ghost_last_sql", "SqlConn.ghost_last_id",
             "SqlConn.ghost_last_doc", "$list.Int", "$len.Int"]     # only the ghost state of connections changes
-contract("SqliteDataStore.conn", abstract=True, params=["self"], props=["C10", "C11"],
-         trusted="sqlite3.connect + PRAGMA set-up (external); a returned connection has nothing pending",
-         types={"self": "Ref[SqliteDataStore]", "result": "Ref[SqlConn]"},
-         ensures=["valid(result)", "result.ghost_pending == 0", "valid(result.ghost_ids)"], allocates=True)
 contract("SqlConn.cursor", abstract=True, params=["self"], props=["C10", "C11"], trusted="sqlite3 (external)",
          types={"self": "Ref[SqlConn]", "result": "Ref[SqlCursor]"}, ensures=["valid(result)", "result.conn is self"], allocates=True)
 contract("SqlCursor.execute", abstract=True, params=["self", "sql", "parameters"], props=["C10", "C11"], trusted="sqlite3 (external)",
@@ -38,7 +34,7 @@ contract("lib:json.dumps", abstract=True, params=["obj"], props=["C10", "C11"], 
 contract("artap.datastore:SqliteDataStore.sync_individual", props=["C10", "C11"],
          types={"individual": "Ref[Individual]"}, locals={"conn": "Ref[SqlConn]", "c": "Ref[SqlCursor]"},
          ghost_results={"gconn": "Ref[SqlConn]"},
-         requires=["valid(individual)"],
+         requires=["valid(individual)", "self.thread_safe", "implies(not is_none(self._conn), valid(self._conn) and valid(self._conn.ghost_ids))"],
          ensures=[
              # write modes: when the call returns, the LAST statement of some connection is the upsert of this individual's current
              # document and it has been committed (nothing pending): synchronised means durable
@@ -53,7 +49,8 @@ contract("artap.datastore:SqliteDataStore.sync_individual", props=["C10", "C11"]
 contract("artap.datastore:SqliteDataStore.sync_all", props=["C10"],
          types={}, locals={"conn": "Ref[SqlConn]", "c": "Ref[SqlCursor]"},
          ghost_results={"gconn": "Ref[SqlConn]"},
-         requires=["valid(self.problem)", "valid(self.problem.individuals)",
+         requires=["valid(self.problem)", "valid(self.problem.individuals)", "self.thread_safe",
+                   "implies(not is_none(self._conn), valid(self._conn) and valid(self._conn.ghost_ids))",
                    "forall(lambda i: valid(self.problem.individuals[i]), 0, len(self.problem.individuals))"],
          ensures=[
              # one upsert per recorded individual, in order, then one commit: the store holds a row for every recorded individual
@@ -97,3 +94,28 @@ contract("artap.datastore:SqliteDataStore.sync_individual#crash", props=["C11"],
          ensures=["result['opened']",
                   "all(i in result['row_ids'] for i in result['synced'])",
                   "result['bad_rows'] == []"])
+
+
+# ---- C11: the thread-safe (default) store never switches the rollback journal off -----------------------------------------
+# (journal_mode = OFF would let a process death in the middle of a large transaction corrupt the file)
+contract("lib:sqlite3.connect", abstract=True, params=["database", "isolation_level"], props=["C11"], trusted="sqlite3 (external)",
+         types={"database": "Str", "isolation_level": "Str", "result": "Ref[SqlConn]"}, options={"defaults": {"isolation_level": ""}},
+         ensures=["valid(result)", "fresh(result)", "not result.ghost_journal_off", "result.ghost_pending == 0", "valid(result.ghost_ids)"],
+         allocates=True)
+contract("SqlCursor.execute/1", abstract=True, params=["self", "sql"], props=["C11"], trusted="sqlite3 (external)",
+         types={"self": "Ref[SqlCursor]", "sql": "Str"},
+         ensures=["self.conn.ghost_journal_off == (old(self.conn.ghost_journal_off) or sql == 'PRAGMA journal_mode = OFF')",
+                  "self.conn.ghost_pending == old(self.conn.ghost_pending) + 1"],
+         raises={"OperationalError": ["self.conn.ghost_journal_off == old(self.conn.ghost_journal_off)",
+                                     "self.conn.ghost_pending == old(self.conn.ghost_pending)"]},
+         modifies=["self.conn.ghost_journal_off", "self.conn.ghost_pending"])
+contract("artap.datastore:SqliteDataStore.conn", props=["C11"],
+         types={"result": "Ref[SqlConn]"}, locals={"conn": "Ref[SqlConn]", "c": "Ref[SqlCursor]"},
+         requires=["implies(not is_none(self._conn), valid(self._conn) and valid(self._conn.ghost_ids))"],
+         ensures=["valid(result)", "valid(result.ghost_ids)",
+                  # default (thread-safe) mode: a fresh connection on which the journal was not switched off
+                  "implies(self.thread_safe, fresh(result) and not result.ghost_journal_off)",
+                  "implies(self.thread_safe, is_none(self._conn) == old(is_none(self._conn)) and "
+                  "implies(not is_none(self._conn), self._conn is old(self._conn)))"],
+         modifies=["self._conn", "SqlConn.ghost_journal_off", "SqlConn.ghost_pending", "SqlConn.ghost_commits"], allocates=True,
+         notes="sqlite3.connect is assumed not to raise here (if it did, the real code would fail with UnboundLocalError at `return conn`)")
